@@ -53,6 +53,7 @@ type node struct {
 	set     *settings.ConfigManager
 	idx     *index.Manager
 	logs    *observer.ObservedLogs
+	dir     string
 	closed  bool
 }
 
@@ -64,7 +65,7 @@ func seedKey(n uint64) types.PrivateKey {
 
 func newNode(t testing.TB, dir string, pk types.PrivateKey, network *consensus.Network, genesis types.Block, batch int) *node {
 	t.Helper()
-	core, logs := observer.New(zapcore.WarnLevel)
+	core, logs := observer.New(zapcore.DebugLevel)
 	log := zap.New(core)
 	db, err := sqlite.OpenDatabase(filepath.Join(dir, "hostd.sqlite3"), zap.NewNop())
 	if err != nil {
@@ -99,7 +100,7 @@ func newNode(t testing.TB, dir string, pk types.PrivateKey, network *consensus.N
 	if err != nil {
 		t.Fatal("index:", err)
 	}
-	return &node{store: db, dbstore: dbstore, cm: cm, w: wm, vm: vm, con: con, set: sm, idx: idx, logs: logs}
+	return &node{store: db, dbstore: dbstore, cm: cm, w: wm, vm: vm, con: con, set: sm, idx: idx, logs: logs, dir: dir}
 }
 
 func (n *node) close() {
@@ -122,9 +123,9 @@ func (n *node) sync() string {
 	panicked, msg := vhlib.Try(func() { err = n.idx.VerifSync(context.Background()) })
 	switch {
 	case panicked:
-		return "panic:" + clip(msg)
+		return "panic:" + clip(msg) + " comp=" + component(msg)
 	case err != nil:
-		return "syncerr:" + errClass(err)
+		return "syncerr:" + errClass(err) + " comp=" + component(err.Error())
 	case n.idx.Tip() != n.cm.Tip():
 		return "syncerr:behind"
 	}
@@ -144,6 +145,20 @@ func clip(s string) string {
 	return s
 }
 
+// component names the part of the chain update that failed (wallet, contracts, settings).
+func component(msg string) string {
+	switch {
+	case strings.Contains(msg, "wallet state") || strings.Contains(msg, "wallet") || strings.Contains(msg, "siacoin element"):
+		return "wallet"
+	case strings.Contains(msg, "contract state") || strings.Contains(msg, "contract") || strings.Contains(msg, "Contract") ||
+		strings.Contains(msg, "Collateral") || strings.Contains(msg, "Revenue") || strings.Contains(msg, "accumulator") || strings.Contains(msg, "expected 2 arguments"):
+		return "contracts"
+	case strings.Contains(msg, "settings state") || strings.Contains(msg, "announcement"):
+		return "settings"
+	}
+	return "other"
+}
+
 func errClass(err error) string {
 	s := err.Error()
 	for _, k := range []string{"not found", "negative stat", "UNIQUE", "missing block", "locked", "no rows"} {
@@ -161,6 +176,25 @@ type contractInfo struct {
 	fc       types.V2FileContract // latest revision the harness signed
 	formed   bool                 // formation currently confirmed on the host's best chain (from the update stream)
 	resolved bool
+	// what the twin store needs to hold the same contract
+	v1       bool
+	set      rhp4.TransactionSet      // v2 formation set
+	set1     []types.Transaction      // v1 formation set
+	rev1     contracts.SignedRevision // v1 initial revision
+	locked1  types.Currency
+	usage1   contracts.Usage
+	revs     []v2rev // ReviseV2Contract calls, in order
+	roots    []types.Hash256
+	seeds    []uint64 // sector seeds (data the host holds for the contract)
+	unstable bool     // the formation was disconnected at some point
+	exp      uint64   // v2 expiration height / v1 window end
+	formH    uint64   // height of the (last) confirmation, v1
+}
+
+type v2rev struct {
+	fc    types.V2FileContract
+	roots []types.Hash256
+	usage proto4.Usage
 }
 
 type blockRec struct {
@@ -192,6 +226,11 @@ type world struct {
 	forkGen     int
 	t0          time.Time
 	midBatchRej int
+	refused     map[int]int    // contract -> lifecycle sets the pool refused
+	fundFail    map[int]int    // contract -> lifecycle transactions the wallet could not fund
+	lastRej     map[int]string // contract -> why its latest lifecycle transaction could not be broadcast (cleared by a broadcast)
+	vol         int
+	sectorN     uint64
 }
 
 func (w *world) oid(h types.Hash256) int {
@@ -240,7 +279,7 @@ func newWorld(t testing.TB, net string, batch int, spaced bool) *world {
 	w := &world{t: t, net: net, batch: batch, spaced: spaced, network: network, genesis: genesis,
 		hostKey: seedKey(7001), renterKey: seedKey(7002),
 		oids: map[types.Hash256]int{}, bids: map[types.BlockID]int{}, addrs: map[string]int{},
-		t0: time.Now().Truncate(5 * time.Minute).Add(30 * time.Second)}
+		t0: time.Now().Truncate(5 * time.Minute).Add(30 * time.Second), refused: map[int]int{}, lastRej: map[int]string{}, fundFail: map[int]int{}}
 	w.host = newNode(t, t.TempDir(), w.hostKey, network, genesis, batch)
 	return w
 }
@@ -393,7 +432,7 @@ func (w *world) deriveUpdates() ([]string, error) {
 			for _, e := range rec.spent {
 				sp = append(sp, triple(w, e))
 			}
-			fcs := w.contractEvents(ru.V2FileContractElementDiffs(), true)
+			fcs := w.contractEvents(ru.V2FileContractElementDiffs(), ru.FileContractElementDiffs(), true, idx.Height)
 			toks = append(toks, fmt.Sprintf("u=R|%d|%d|%s|%s|-|-|-|%s|%d", idx.Height, w.bid(idx.ID), joinOr(cr, "/"), joinOr(sp, "/"), joinOr(fcs, "/"), ru.Block.Timestamp.Unix()/300))
 			since = ru.State.Index
 		}
@@ -428,7 +467,7 @@ func (w *world) deriveUpdates() ([]string, error) {
 					a2 = fmt.Sprint(w.addrTag("v2:" + h.Sum().String()))
 				}
 			})
-			fcs := w.contractEvents(au.V2FileContractElementDiffs(), false)
+			fcs := w.contractEvents(au.V2FileContractElementDiffs(), au.FileContractElementDiffs(), false, idx.Height)
 			toks = append(toks, fmt.Sprintf("u=A|%d|%d|%s|%s|%s|%s|%s|%s|%d", idx.Height, w.bid(idx.ID), joinOr(cr, "/"), joinOr(sp, "/"), joinOr(ev, "/"), a1, a2, joinOr(fcs, "/"), au.Block.Timestamp.Unix()/300))
 			since = idx
 		}
@@ -437,21 +476,47 @@ func (w *world) deriveUpdates() ([]string, error) {
 	return toks, nil
 }
 
-func (w *world) contractEvents(diffs []consensus.V2FileContractElementDiff, revert bool) (out []string) {
+func (w *world) contractEvents(diffs []consensus.V2FileContractElementDiff, v1diffs []consensus.FileContractElementDiff, revert bool, h uint64) (out []string) {
 	for _, d := range diffs {
 		for i, c := range w.cons {
-			if c.id != d.V2FileContractElement.ID {
+			if c.v1 || c.id != d.V2FileContractElement.ID {
 				continue
 			}
-			switch {
-			case d.Created:
+			if d.Created {
 				c.formed = !revert
+				if revert {
+					c.unstable = true
+				}
 				out = append(out, fmt.Sprintf("%d:form", i))
-			case d.Resolution != nil:
+			}
+			if d.Revision != nil {
+				out = append(out, fmt.Sprintf("%d:rev", i))
+			}
+			if d.Resolution != nil {
 				c.resolved = !revert
 				out = append(out, fmt.Sprintf("%d:res", i))
-			case d.Revision != nil:
-				out = append(out, fmt.Sprintf("%d:rev", i))
+			}
+		}
+	}
+	for _, d := range v1diffs {
+		for i, c := range w.cons {
+			if !c.v1 || c.id != d.FileContractElement.ID {
+				continue
+			}
+			if d.Created {
+				c.formed = !revert
+				c.formH = h
+				if revert {
+					c.unstable = true
+				}
+				out = append(out, fmt.Sprintf("%d:form1", i))
+			}
+			if d.Revision != nil {
+				out = append(out, fmt.Sprintf("%d:rev1", i))
+			}
+			if d.Resolved {
+				c.resolved = !revert
+				out = append(out, fmt.Sprintf("%d:res1", i))
 			}
 		}
 	}
@@ -541,36 +606,99 @@ func (w *world) observeNode(n *node, pfx string) string {
 	}
 	sort.Strings(cs)
 	fmt.Fprintf(&sb, " %scel=[%s]", pfx, strings.Join(cs, ","))
+	fmt.Fprintf(&sb, " %scst=%s", pfx, w.contractViews(n))
 	return sb.String()
 }
 
-// hostRejects counts error logs of the host's own lifecycle broadcasts that name an invalid proof,
-// restricted to broadcasts made while the processed index was the chain tip (C17 speaks about the
-// processed tip; during a multi-batch catch-up the pool first has to move the proofs from the
-// intermediate index to its own tip, which is the chain manager's business, not the stored elements').
-func (w *world) hostRejects(single bool) int {
-	n := 0
+// scanLogs digests the host's log since the last operation:
+//   - acts: lifecycle transactions the host broadcast ("height:kind"),
+//   - prej: lifecycle transactions it could not broadcast ("height:kind:c<contract>:reason"),
+//   - the return value counts pool refusals naming an invalid proof, restricted to broadcasts made while the
+//     processed index was the chain tip in a history without multi-batch catch-up (C17 speaks about the processed
+//     tip: chain.Manager remembers a refused set by transaction ids, which do not cover the proofs, and its proof
+//     update skips transactions with an ephemeral input; once the host's resolution set was refused at an
+//     intermediate index of a catch-up the same set stays refused - the chain manager's behaviour).
+func (w *world) scanLogs(single bool) (n int, acts, prej []string) {
 	tip := w.host.cm.Tip().String()
 	for _, e := range w.host.logs.TakeAll() {
+		if !strings.HasPrefix(e.LoggerName, "contracts") {
+			continue
+		}
 		s := e.Message
-		atTip := false
+		idx, cid := "", ""
 		for _, f := range e.Context {
-			if f.Key == "error" && f.Interface != nil {
-				s += " " + fmt.Sprint(f.Interface)
-			}
-			if f.Key == "index" && (f.String == tip || fmt.Sprint(f.Interface) == tip) {
-				atTip = true
+			switch f.Key {
+			case "error":
+				if f.Interface != nil {
+					s += " " + fmt.Sprint(f.Interface)
+				}
+			case "index":
+				idx = f.String
+				if f.Interface != nil {
+					idx = fmt.Sprint(f.Interface)
+				}
+			case "contractID":
+				cid = f.String
+				if f.Interface != nil {
+					cid = fmt.Sprint(f.Interface)
+				}
 			}
 		}
+		if !strings.Contains(e.LoggerName, "lifecycle") {
+			continue
+		}
+		kind := strings.TrimPrefix(e.LoggerName[strings.Index(e.LoggerName, "lifecycle")+len("lifecycle"):], ".")
+		kind = strings.ReplaceAll(kind, " ", "_")
+		if kind == "" {
+			kind = strings.SplitN(e.Message, " ", 2)[0]
+		}
+		h := strings.SplitN(idx, "::", 2)[0]
+		ci := -1
+		for i, c := range w.cons {
+			if cid != "" && (c.id.String() == cid || strings.HasSuffix(c.id.String(), cid) || strings.HasSuffix(cid, strings.TrimPrefix(c.id.String(), "fcid:"))) {
+				ci = i
+			}
+		}
+		switch {
+		case e.Level < zapcore.WarnLevel:
+			if strings.Contains(e.Message, "broadcast") && !strings.Contains(e.Message, "skipping") {
+				acts = append(acts, fmt.Sprintf("%s:%s", h, kind))
+				if ci >= 0 {
+					delete(w.lastRej, ci)
+				}
+			}
+			continue
+		case strings.Contains(s, "to pool"):
+			reason := "pool"
+			if strings.Contains(s, "not present in the accumulator") || strings.Contains(s, "invalid history proof") || strings.Contains(s, "invalid Merkle proof") {
+				reason = "pool_bad_proof"
+			}
+			prej = append(prej, fmt.Sprintf("%s:%s:c%d:%s", h, kind, ci, reason))
+			if ci >= 0 {
+				w.refused[ci]++
+				w.lastRej[ci] = "pool_refused"
+			}
+		case strings.Contains(s, "fund"):
+			prej = append(prej, fmt.Sprintf("%s:%s:c%d:fund", h, kind, ci))
+			if ci >= 0 {
+				w.lastRej[ci] = "no_funds"
+				w.fundFail[ci]++
+			}
+		default:
+			prej = append(prej, fmt.Sprintf("%s:%s:c%d:%s", h, kind, ci, clip(e.Message)))
+			if ci >= 0 && !strings.Contains(kind, ".") {
+				w.lastRej[ci] = "host_" + clip(e.Message)
+			}
+		}
+		if len(prej) > 24 {
+			prej = append(prej[:12], prej[len(prej)-12:]...)
+		}
+		atTip := idx == tip
 		if strings.Contains(s, "not present in the accumulator") || strings.Contains(s, "invalid history proof") ||
 			strings.Contains(s, "invalid Merkle proof") || strings.Contains(s, "is not present") {
 			if os.Getenv("VH_DEBUG") != "" {
 				fmt.Fprintln(os.Stderr, "HOSTREJ:", atTip, e.LoggerName, s)
 			}
-			// chain.Manager remembers a rejected set by transaction ids (which do not cover the proofs) and its
-			// proof update skips transactions with an ephemeral input: once the host's resolution set was refused
-			// at an intermediate index of a multi-batch catch-up the same set stays refused; that is the chain
-			// manager's behaviour, so only rejections in a history without such a catch-up attempt are counted
 			if atTip && single && w.midBatchRej == 0 {
 				n++
 			} else {
@@ -578,7 +706,7 @@ func (w *world) hostRejects(single bool) int {
 			}
 		}
 	}
-	return n
+	return
 }
 
 // ---------------------------------------------------------------- C17 acceptance probes
@@ -614,7 +742,7 @@ func (w *world) acceptance() (string, int) {
 	var out []string
 	probes := 0
 	for i, c := range w.cons {
-		if !c.formed || c.resolved {
+		if c.v1 || !c.formed || c.resolved {
 			continue
 		}
 		basis, fce, err := n.con.V2FileContractElement(c.id)
@@ -685,6 +813,9 @@ func (w *world) merkleCheck() (badIdx, badCel, nIdx, nCel int) {
 		}
 	}
 	for _, c := range w.cons {
+		if c.v1 {
+			continue
+		}
 		_, fce, err := n.con.V2FileContractElement(c.id)
 		if err != nil {
 			continue
@@ -749,7 +880,8 @@ func (w *world) finish(tr *vhlib.Trace, op string, pre string) {
 	}
 	tr.Dist["c17:merkle_checked_index_elements"] += ni
 	tr.Dist["c17:merkle_checked_contract_elements"] += nc
-	tr.Line(op, strings.TrimSpace(fmt.Sprintf("res=ok %s %s %s acc=%s mkidx=%d mkcel=%d hostrej=%d", pre, strings.Join(toks, " "), obs, acc, bi, bc, w.hostRejects(len(toks) <= w.batch))))
+	rej, acts, prej := w.scanLogs(len(toks) <= w.batch)
+	tr.Line(op, strings.TrimSpace(fmt.Sprintf("res=ok %s %s %s acc=%s mkidx=%d mkcel=%d hostrej=%d acts=[%s] prej=[%s]", pre, strings.Join(toks, " "), obs, acc, bi, bc, rej, strings.Join(acts, ","), strings.Join(prej, ","))))
 }
 
 func (w *world) doMine(tr *vhlib.Trace, n int, to string, pool bool) {
@@ -822,12 +954,31 @@ func (w *world) doReorg(tr *vhlib.Trace, depth, length int, to string, carry boo
 		}
 	}
 	if carry {
-		// transactions of the blocks about to be orphaned are offered to the fork (v1 only: no proofs to convert)
+		// transactions of the blocks about to be orphaned are offered to the fork
 		for h := forkH + 1; h <= tip.Height; h++ {
 			bi, _ := cm.BestIndex(h)
 			b, _ := cm.Block(bi.ID)
 			for _, txn := range b.Transactions {
 				cm2.AddPoolTransactions([]types.Transaction{txn})
+			}
+			// v2: move the proofs back from the state the block was built on to the fork point
+			if v2 := b.V2Transactions(); len(v2) > 0 && h >= 1 {
+				parent, _ := cm.BestIndex(h - 1)
+				forkIdx, _ := cm.BestIndex(forkH)
+				cp := make([]types.V2Transaction, len(v2))
+				for i := range v2 {
+					cp[i] = v2[i].DeepCopy()
+				}
+				var upd []types.V2Transaction
+				var err error
+				vhlib.Try(func() { upd, err = cm.UpdateV2TransactionSet(cp, parent, forkIdx) })
+				if err == nil && len(upd) > 0 {
+					if _, err := cm2.AddV2PoolTransactions(forkIdx, upd); err != nil {
+						for _, txn := range upd {
+							cm2.AddV2PoolTransactions(forkIdx, []types.V2Transaction{txn})
+						}
+					}
+				}
 			}
 		}
 	}
@@ -1030,7 +1181,7 @@ func (w *world) doForm(tr *vhlib.Trace, dur uint64) {
 			} else if err := n.con.AddV2Contract(set, proto4.Usage{}); err != nil {
 				res = "adderr"
 			} else {
-				w.cons = append(w.cons, &contractInfo{id: txn.V2FileContractID(txn.ID(), 0), fc: fc})
+				w.cons = append(w.cons, &contractInfo{id: txn.V2FileContractID(txn.ID(), 0), fc: fc, set: set, exp: fc.ExpirationHeight})
 			}
 		}
 	}
@@ -1045,8 +1196,10 @@ func (w *world) doRevise(tr *vhlib.Trace, ci int) {
 		return
 	}
 	res := "ok"
-	if ci < 0 || ci >= len(w.cons) {
+	if ci < 0 || ci >= len(w.cons) || w.cons[ci].v1 {
 		res = "nocontract"
+	} else if !w.revisable(ci) {
+		res = "notrevisable"
 	} else {
 		c := w.cons[ci]
 		n := w.host
@@ -1062,11 +1215,12 @@ func (w *world) doRevise(tr *vhlib.Trace, ci int) {
 			fc.HostSignature = w.hostKey.SignHash(sh)
 			fc.RenterSignature = w.renterKey.SignHash(sh)
 			var err error
-			panicked, _ := vhlib.Try(func() { err = n.con.ReviseV2Contract(c.id, fc, nil, proto4.Usage{RPC: cost}) })
+			panicked, _ := vhlib.Try(func() { err = n.con.ReviseV2Contract(c.id, fc, c.roots, proto4.Usage{RPC: cost}) })
 			if panicked || err != nil {
 				res = "err"
 			} else {
 				c.fc = fc
+				c.revs = append(c.revs, v2rev{fc: fc, roots: append([]types.Hash256(nil), c.roots...), usage: proto4.Usage{RPC: cost}})
 			}
 		}
 	}
